@@ -784,6 +784,8 @@ class PE(object):
       return obj[idx]
     if isinstance(obj, Tensor):
       return Tensor(("app", "index", (), (obj.term,)), None)
+    if isinstance(obj, Mock) and "__getitem__" in obj.attrs:
+      return obj.attrs["__getitem__"](self, [idx], {})
     self.err("subscript of %r" % (obj,), node)
 
   def eval_UnaryOp(self, node, frames, module):
